@@ -40,7 +40,10 @@ FORMATS = ("xyz", "mol2")
 
 
 def _matches(fn, subject_name):
-    return [m for m in walk_no_nested(fn) if isinstance(m, ast.Match) and subject_name in names_in(m.subject)]
+    from ..canon import Env
+
+    env = Env(fn)  # `p = parser.lower()` ... `match p:` is a match on parser
+    return [m for m in walk_no_nested(fn) if isinstance(m, ast.Match) and subject_name in names_in(env.expand(m.subject))]
 
 
 def _case_lits(c):
@@ -105,10 +108,12 @@ def _dispatch(chk, f, fmt_table):
     inner = [s for s in body if isinstance(s, ast.Match) and "fmt" in names_in(s.subject)]
     chk.require(len(inner) == 1, f"{f.key}: `match fmt` not found directly inside the molli arm")
     inner = inner[0]
-    guards = [s for s in body if isinstance(s, ast.If) and isinstance(s.test, ast.Compare) and len(s.test.ops) == 1
-              and isinstance(s.test.ops[0], ast.NotIn) and norm(s.test.left) == "fmt" and norm(s.test.comparators[0]) == fmt_table]
-    ok = len(guards) == 1 and guards[0].lineno < inner.lineno and _raises_only(guards[0].body)
-    chk.decide(ok, "C09.R5", f"{f.key}:unsupported-format-guard", f.where(guards[0] if guards else inner),
+    from ..canon import path_conditions
+
+    # the dispatch runs only where `fmt in <table>` is known, and what made it known is a branch that raises
+    conds = [norm(c) for c in path_conditions(f.node, inner, guard_ends=(ast.Raise,))]
+    ok = f"fmt in {fmt_table}" in conds
+    chk.decide(ok, "C09.R5", f"{f.key}:unsupported-format-guard", f.where(inner),
                f"`fmt not in {fmt_table}` raises ValueError before the format dispatch",
                f"the format dispatch is not dominated by a guard that raises ValueError for formats outside {fmt_table}")
     supported = prog.const_eval(f.module, ast.Name(id=fmt_table, ctx=ast.Load()))
@@ -310,12 +315,32 @@ def dumper(chk, f, E, mol, ens):
 def r6_stream(chk, f):
     src = f.params()[1]
     closes = [c for c in walk_no_nested(f.node) if isinstance(c, ast.Call) and call_name(c) == "stream.close"]
-    opens = [s for s in walk_no_nested(f.node) if isinstance(s, ast.Assign) and norm(s.targets[0]) == "stream"
-             and isinstance(s.value, ast.Call) and call_name(s.value) == "open"]
+    def _opened(v):
+        """open(...) directly, or registered with an ExitStack: <stack>.enter_context(open(...)) -> (is_open, stack name | None)"""
+        if isinstance(v, ast.Call) and call_name(v) == "open":
+            return True, None
+        if isinstance(v, ast.Call) and isinstance(v.func, ast.Attribute) and v.func.attr == "enter_context" and len(v.args) == 1 \
+                and isinstance(v.args[0], ast.Call) and call_name(v.args[0]) == "open" and isinstance(v.func.value, ast.Name):
+            return True, v.func.value.id
+        return False, None
+
+    opens = [s for s in walk_no_nested(f.node) if isinstance(s, ast.Assign) and norm(s.targets[0]) == "stream" and _opened(s.value)[0]]
     alias = [s for s in walk_no_nested(f.node) if isinstance(s, ast.Assign) and norm(s.targets[0]) == "stream" and norm(s.value) == src]
     chk.decide(len(opens) == 1 and len(alias) == 1, "C09.R6", f"{f.key}:stream-source", f.where(),
                f"stream is open({src}) for a path, else `{src}` itself", "dump does not write to the stream it was given")
     key = f"{f.key}:close-only-own-stream"
+    stack = _opened(opens[0].value)[1] if len(opens) == 1 else None
+    if stack is not None and not closes:
+        # ExitStack idiom: the file opened here is registered with a stack that an enclosing `with` unwinds on every exit;
+        # the caller's stream must not be registered with it
+        withs = [w for w in walk_no_nested(f.node) if isinstance(w, ast.With) and any(
+            isinstance(it.context_expr, ast.Call) and (call_name(it.context_expr) or "").split(".")[-1] == "ExitStack"
+            and it.optional_vars is not None and norm(it.optional_vars) == stack for it in w.items) and any(x is opens[0] for x in ast.walk(w))]
+        regs = [c for c in walk_no_nested(f.node) if isinstance(c, ast.Call) and isinstance(c.func, ast.Attribute) and norm(c.func.value) == stack
+                and c.func.attr in ("enter_context", "push", "callback") and c is not opens[0].value]
+        chk.decide(len(withs) == 1 and not regs, "C09.R6", key, f.where(opens[0]), f"the opened file is owned by `with ExitStack() as {stack}`; nothing else is registered",
+                   f"`{stack}` is not an enclosing ExitStack, or it also registers {[short(r, 40) for r in regs]}: a caller-supplied stream may be closed / the opened file leaked")
+        return
     if not closes:
         chk.fail("C09.R6", key, f.where(), "a file opened by dump is never closed")
         return
